@@ -2,6 +2,7 @@
 import re
 
 import facts
+from astlib import result_expr  # noqa: E402
 from astlib import (
     block_tail,
     calls,
@@ -263,7 +264,7 @@ def rule_primes(ctx):
     if ps is None:
         ctx.missing(R, "UsefulConstants::prime_size")
     else:
-        t = block_tail(ps["body"])
+        t = result_expr(ps)
         ctx.check(R, "UsefulConstants::prime_size/bits-of-prime", t is not None and render(strip(t)) in ("self.prime.bits()", "self.prime().bits()"), "returns %s" % render(t), site(CONSTS, ps))
     new = fns.get("new")
     if new is None:
@@ -281,11 +282,11 @@ def rule_primes(ctx):
         ctx.check(R, "UsefulConstants::new/prime-of-selected-curve", ok, det, site(CONSTS, new))
     pr = fns.get("prime")
     if pr is not None:
-        t = block_tail(pr["body"])
+        t = result_expr(pr)
         ctx.check(R, "UsefulConstants::prime/returns-stored", t is not None and render(strip(t)) == "self.prime", "returns %s" % render(t))
     cu = fns.get("curve")
     if cu is not None:
-        t = block_tail(cu["body"])
+        t = result_expr(cu)
         ctx.check(R, "UsefulConstants::curve/returns-stored", t is not None and render(strip(t)) == "self.curve", "returns %s" % render(t))
     return primes
 
@@ -412,20 +413,18 @@ def rule_thresholds(ctx, primes):
         ctx.missing(R, "nonstrict_binary_conversion functions")
     else:
         # only under Bn254: an early return when curve != Bn254
-        rets = [n for n in walk(top["body"]) if n["k"] == "Return"]
-        curve_gate = False
-        for r in rets:
-            cs = conditions_to(top["body"], r)
-            for c in cs:
-                s = fact_str(c).replace(" ", "")
-                if re.fullmatch(r"\(cfg\.constants\(\)\.curve\(\)!=&?Curve::Bn254\)", s) or re.fullmatch(r"!\(cfg\.constants\(\)\.curve\(\)==&?Curve::Bn254\)", s):
-                    curve_gate = True
+        # the statement visitor is reached only when the curve is Bn254 (early return, nested if, merged conditions alike)
+        visits = [c for c in walk(top["body"]) if c["k"] == "Call" and c["func"]["k"] == "Path" and last(c["func"]["path"]) == "visit_statement"]
+        curve_gate = bool(visits)
+        for v_ in visits:
+            cs = conditions_to(top["body"], v_) or []
+            curve_gate = curve_gate and any(c[0] == "if" and c[2] and re.fullmatch(r"\(cfg\.constants\(\)\.curve\(\)==&?Curve::Bn254\)|\(&?Curve::Bn254==cfg\.constants\(\)\.curve\(\)\)", fact_str(c).replace(" ", "")) for c in cs)
         ctx.check(R, "find_nonstrict_binary_conversion/only-under-Bn254", curve_gate, "expected an early return when the curve is not Bn254", site(NS, top))
         # no other early return except Function|CustomTemplate
-        for r in rets:
-            cs = [fact_str(c) for c in conditions_to(top["body"], r)]
-            okr = all(("Curve::Bn254" in s) or ("definition_type" in s) for s in cs) and cs
-            ctx.check(R, "find_nonstrict_binary_conversion/early-return", okr, "early return under: %s" % cs, site(NS, r))
+        for v_ in visits:
+            cs = [fact_str(c) for c in (conditions_to(top["body"], v_) or []) if c[0] not in ("loop", "closure")]
+            okr = all(("Curve::Bn254" in s) or ("definition_type" in s) for s in cs)
+            ctx.check(R, "find_nonstrict_binary_conversion/early-return", okr, "statements are visited only under: %s" % cs, site(NS, v_))
         env = param_env(NS, vs, [top])
         pushes = list(method_calls(vs["body"], "push"))
         ctx.floor(R, "nonstrict-pushes", len(pushes), 2)
